@@ -242,8 +242,69 @@ def h_ecdsa_lz(ctx):
     return Outcome(f"{alg}:lzR={min(lz_r, 1)}:lzS={min(lz_s, 1)}", vs, nontrivial=(alg, batch), n=n)
 
 
+SIGNERS = [("HS256", "oct32"), ("RS256", "rsa"), ("ES256", "P-256"), ("EdDSA", "Ed25519"), ("ES384", "P-384"), ("HS512", "oct64"), ("ES256", "P-256")]
+
+
+def h_multi_signer(ctx):
+    """General JSON with 2-3 signatures made by different keys, the keys supplied as key set or through a callable."""
+    import itertools
+    from joserfc import jws
+    from joserfc.jwk import KeySet
+    n = ctx.choose("signers", [2, 3])
+    combo = ctx.choose("algs", list(itertools.combinations(range(len(SIGNERS)), n)))
+    supplied = ctx.choose("keys_supplied_as", ["key set", "callable returning a key per member", "callable returning the key set"])
+    kid_pos = ctx.choose("kid_position", ["protected", "unprotected"])
+    pname, payload = ctx.choose("payload", payloads()[:5])
+    members, privs, pubs, jwks = [], [], [], []
+    for j, i in enumerate(combo):
+        alg, kind = SIGNERS[i]
+        jwk = scen.key(kind, j)
+        kid = f"signer-{j}"
+        hdr_p, hdr_u = {"alg": alg}, None
+        if kid_pos == "protected":
+            hdr_p["kid"] = kid
+        else:
+            hdr_u = {"kid": kid}
+        members.append({"protected": hdr_p, **({"header": hdr_u} if hdr_u else {})})
+        privs.append(A.jkey({**jwk, "kid": kid}, "dict"))
+        pubs.append(A.jkey({**(jwk if jwk["kty"] == "oct" else rjwk.public_of(jwk)), "kid": kid}, "dict"))
+        jwks.append(jwk)
+    algs = sorted({SIGNERS[i][0] for i in combo})
+
+    def arg(keys):
+        ks = KeySet(list(keys))
+        if supplied == "key set":
+            return ks
+        if supplied == "callable returning the key set":
+            return lambda obj: ks
+        return lambda obj: next(k for k in keys if k.kid == obj.headers().get("kid"))
+    given = copy.deepcopy(members)
+    r = call(jws.serialize_json, members, payload, arg(privs), algorithms=algs)
+    vs = []
+    what = f"{[SIGNERS[i][0] for i in combo]} keys as {supplied}, kid {kid_pos}, payload {pname}"
+    if not r.ok:
+        return Outcome("produce-failed", [viol(f"general JSON with several signers cannot be produced ({supplied})", f"{what}: {r.exc!r}")], nontrivial=(combo, supplied))
+    tok = r.value
+    if len(tok.get("signatures", [])) != n:
+        vs.append(viol("general JSON loses a signature", what))
+    else:
+        for j, (sig, jwk) in enumerate(zip(tok["signatures"], jwks)):
+            try:
+                rjws.verify_member(sig, tok["payload"], jwk if jwk["kty"] == "oct" else rjwk.public_of(jwk))
+            except (RefError, ValueError, KeyError) as e:
+                vs.append(viol(f"signature {j + 1} of a multi-signer general JSON is not made with that member's key ({supplied})", f"{what}: {e!r}"))
+        c = call(jws.deserialize_json, copy.deepcopy(tok), arg(pubs), algorithms=algs)
+        if not c.ok:
+            vs.append(viol(f"own multi-signer general JSON does not verify ({supplied})", f"{what}: {c.exc!r}"))
+        elif c.value.payload != payload or [m.headers() for m in c.value.members] != [{**g["protected"], **g.get("header", {})} for g in given]:
+            vs.append(viol("multi-signer general JSON round trip changes payload or headers", what))
+    return Outcome(f"multi:{'ok' if not vs else 'bad'}", vs, nontrivial=(combo, supplied, kid_pos, pname))
+
+
 _p2 = Part("ecdsa-leading-zero", h_ecdsa_lz, split_depth=1)
+_p3 = Part("general-multi-signer", h_multi_signer, split_depth=2)
+_p3.single_bucket_ok = True
 PARTS = [
     Part("roundtrip", h_roundtrip, bound={"quick": 0, "thorough": 0}, split_depth=2, budget={"quick": 120, "thorough": 1500}),
-    _p2,
+    _p2, _p3,
 ]
